@@ -51,6 +51,7 @@ def _missing_initial_points(sa, init, boundary):
 def run_dw(case):
     out = Outcome()
     sub = "dw"
+    case = dict(case, rerun=None)        # exactness is relative to the initial configuration of ONE run
     dim, lmin, lmax, boundary = case["dim"], case["lmin"], case["lmax"], case["boundary"]
     a, b = case["a"], case["b"]
     rng = np.random.default_rng(case["fseed"])
@@ -95,7 +96,7 @@ def run_dw(case):
                 elif relevelled:
                     cause = "initial-point-relevelled-without-rebalancing"
                 else:
-                    cause = "initial-point-coarsened-away/version=%d" % case["version"]
+                    cause = "initial-point-coarsened-away/version=%d" % case["version"] + ("/lmin=lmax" if lmin == lmax else "")
                 detail = "missing (dim, grid level, point, initial level, current level): %s" % (miss[:3],)
             else:
                 cause = "all-initial-points-present"
@@ -138,7 +139,7 @@ def run_dw_modified(case):
     exact = [vol * float(c[0] + np.dot(c[1:], (a + b) / 2)) for c in cs]
     scale = [float(np.sum(np.abs(c)) * (1 + np.max(np.abs(np.concatenate([a, b]))))) for c in cs]
     f = drive.vector_function(comps)
-    case = dict(case, boundary=False, modified=True)
+    case = dict(case, boundary=False, modified=True, rerun=None)
     sa, op = drive.build_dw(case, f)
     evalpts = [tuple(float(a[d] + (b[d] - a[d]) * rng.random()) for d in range(dim)) for _ in range(6)]
     truth = np.array([[c(p) for c in comps[1:]] for p in evalpts])
@@ -201,6 +202,7 @@ def run_dw_modified(case):
 def run_es(case):
     out = Outcome()
     sub = "es"
+    case = dict(case, rerun=None)
     dim = case["dim"]
     a, b = case["a"], case["b"]
     rng = np.random.default_rng(case["fseed"])
@@ -332,7 +334,14 @@ def cell_strategy(tier):
 
 
 def dw_strategy(tier):
-    return drive.st_dw_case(tier=tier)
+    @st.composite
+    def s(draw):
+        c = draw(drive.st_dw_case(tier=tier))
+        if draw(st.integers(0, 5)) == 0:
+            # start configuration with lmin == lmax (a single full grid): the initial space is the full-grid space
+            c["lmin"] = c["lmax"] = draw(st.sampled_from([2, 2, 3]))
+        return c
+    return s()
 
 
 def dwm_strategy(tier):
